@@ -65,9 +65,9 @@ func (s *sink) Header(h []hpack.HeaderField, es bool, pr http2.PriorityParam) er
 	s.headers++
 	return nil
 }
-func (s *sink) Priority(http2.PriorityParam) error                  { return nil }
-func (s *sink) RSTStream(http2.ErrCode) error                       { return nil }
-func (s *sink) PushPromise(uint32, []hpack.HeaderField) error       { return nil }
+func (s *sink) Priority(http2.PriorityParam) error            { return nil }
+func (s *sink) RSTStream(http2.ErrCode) error                 { return nil }
+func (s *sink) PushPromise(uint32, []hpack.HeaderField) error { return nil }
 
 type params struct {
 	enc   string
